@@ -321,7 +321,9 @@ cdef class ParticleArray:
         for prop in props:
             self._check_property(prop)
 
-        self.output_property_arrays = props
+        # copy: the caller's list (e.g. that of another particle array,
+        # see utils.create_dummy_particles) must not be shared.
+        self.output_property_arrays = list(props)
 
     def add_output_arrays(self, list props):
         """Append props to the existing list of output arrays
